@@ -57,6 +57,9 @@ Containers ==
     [name |-> "Lock",       feature |-> "core", params |-> 1, keys |-> {}, sizes |-> {1}],
     [name |-> "RefLock",    feature |-> "core", params |-> 1, keys |-> {}, sizes |-> {1}],
     [name |-> "OnceLock",   feature |-> "core", params |-> 1, keys |-> {}, sizes |-> {0, 1}],
+    \* Box<dyn Tr<'gc> + 'gc> for a client trait Tr: DynCollect made Collect with dyn_collect!: tracing goes through
+    \* the blanket DynCollect impl (dyn_trace and its wrapper); NEEDS_TRACE of a trait object is (necessarily) true
+    [name |-> "DynTrait",   feature |-> "core", params |-> 1, keys |-> {}, sizes |-> {1}],
     [name |-> "SliceWithHeader", feature |-> "core", params |-> 2, keys |-> {}, sizes |-> {0, 2}],   \* header once + n elements
     [name |-> "HbHashMap",  feature |-> "hashbrown", params |-> 2, keys |-> {1}, sizes |-> {0, 2}],
     [name |-> "HbHashSet",  feature |-> "hashbrown", params |-> 1, keys |-> {1}, sizes |-> {0, 2}],
@@ -142,7 +145,7 @@ Reported(sh) ==
                                       weak   |-> LWeak(sh.b) + (IF 2 \in sh.rs THEN 0 ELSE LWeak(sh.c))]
 
 NeedsTrace(sh) ==
-  CASE sh.kind = "container" -> \E i \in DOMAIN sh.leaves : LNeeds(sh.leaves[i])
+  CASE sh.kind = "container" -> sh.name = "DynTrait" \/ \E i \in DOMAIN sh.leaves : LNeeds(sh.leaves[i])
     [] sh.kind = "tuple"  -> sh.pos # 0
     [] sh.kind = "struct" -> \E i \in DOMAIN sh.fields \ sh.rs : LNeeds(sh.fields[i])
     [] sh.kind = "enum"   -> LNeeds(sh.a) \/ LNeeds(sh.b) \/ (2 \notin sh.rs /\ LNeeds(sh.c))
